@@ -138,8 +138,12 @@ fn allowed_spans(root: &toml_edit::Item, f: &Fired) -> Vec<std::ops::Range<usize
         }
     };
     with_fallback(&npath, key_level, &mut allowed);
-    // P: the innermost node on which the reader itself invoked a deserialize_* method
-    if let Some(h) = f.hints.last() {
+    // P: the innermost node on which the reader itself invoked a deserialize_* method. It differs
+    // from N only for the visitor handed directly to `tuple_variant` / `struct_variant`. For a tuple
+    // variant the library builds the sequence itself and attaches the enum value's span, which is
+    // accepted; a struct variant's payload is a table with a span of its own and must be named.
+    let p_applies = f.direct_variant != Some("struct_variant");
+    if let (Some(h), true) = (f.hints.last(), p_applies) {
         let (ppath, _, _) = to_path(&f.path[..h.plen.min(f.path.len())]);
         with_fallback(&ppath, h.in_key && !(h.key_depth == 1 && is_private_key(&f.payload)), &mut allowed);
     }
